@@ -325,9 +325,10 @@ def c07(F: Facts):
             if got != reach:
                 out.append(V('C07', 'reach_set', (ev,), expected=sorted(reach), got=sorted(got)))
             for bus in got & reach:
+                must = set(F.matching_handlers(bus, ev, registered_before=F.accepted.get((bus, ev))))
                 for hi in F.matching_handlers(bus, ev):
                     n = len(F.enters.get((bus, ev, hi), ()))
-                    if n != 1 and not any(p[3] for p in F.pe[(bus, ev)]):
+                    if (n > 1 or (n == 0 and hi in must)) and not any(p[3] for p in F.pe[(bus, ev)]):
                         out.append(V('C07', 'handler_count', (ev, bus, hi), n=n))
         else:
             extra = got - reach
@@ -351,6 +352,19 @@ def c07(F: Facts):
     for r in F.recs:
         if r[2] == 'enter' and len(r) > 7 and r[7] is False:
             out.append(V('C07', 'not_same_object', (r[4], r[3])))
+    # loop prevention: a bus never forwards an event to a bus that was already in the event's path when this bus
+    # started to process it
+    for seq, t, actor, dst, ev, outcome, hl in F.disps:
+        if not actor.startswith('fwd:'):
+            continue
+        src = actor.split(':', 1)[1]
+        win = [p for p in F.pe.get((src, ev), ()) if p[0] < seq and (p[1] is None or p[1] > seq)]
+        if not win:
+            continue
+        pb = max(p[0] for p in win)
+        path_then = {b for (s2, t2, a2, b, e2, oc, hl2) in F.disps if e2 == ev and oc == 'ok' and s2 < pb}
+        if dst in path_then:
+            out.append(V('C07', 'forwarded_to_bus_in_path', (ev, src, dst), seq=seq))
     out += hang_violations(F, 'C07')
     return out
 
@@ -467,6 +481,15 @@ def c10(F: Facts):
                     if rr['bus'] == a.bus and rr['h'] and tuple(rr['h'][:2]) == ('h', a.hi):
                         r = rr
             tie = abs(a.t_exit - deadline) <= EPS  # ended exactly at the deadline: may end either way
+            if not tie:
+                # several deadlines expired during one loop stall: an enclosing handler whose own deadline had also
+                # passed may be cancelled first in that iteration and take this one down with it
+                for b in F.acts.values():
+                    db = info.get(b.id)
+                    if b is not a and db is not None and b.how == 'cancelled' and b.enter_seq < a.enter_seq \
+                            and b.t_exit is not None and abs(b.t_exit - a.t_exit) <= EPS and db <= a.t_exit + EPS:
+                        tie = True
+                        break
             if r is None or r['status'] != 'error' or (r['err'] != 'TimeoutError' and not (tie and r['err'] == 'CancelledError')):
                 if True:
                     out.append(V('C10', 'timeout_result', (a.bus, a.ev, a.hi), result=(r['status'], r['err']) if r else None))
